@@ -203,7 +203,8 @@ def main():
                 nb = sum(len(BRIDGE_THEOREMS[b]) for b in BRIDGES[pid])
                 c["text"] = c["text"] + (" Bridge (second tie, translator): %d kernel-checked theorems (LadimProofs/Bridge/{%s}) state that the "
                                          "hand-written model functions these theorems are about equal the statement windows / the statement order "
-                                         "of the update rules translated from /repo's current source on every run." % (nb, ",".join(BRIDGES[pid])))
+                                         "of the update rules translated from /repo's current source on every run." % (nb, ",".join(b for b in BRIDGES[pid] if not b.startswith("../")))
+                              + (" On-code corollaries (LadimProofs/OnCode/%s.lean): property theorems restated with the hand-written function replaced by the generated one." % pid if any(b.startswith("../") for b in BRIDGES[pid]) else ""))
                 c["technique"] = c["technique"] + "; Python-AST-to-Lean translation of the code's statement windows regenerated each run with kernel-checked 'model = generated code' bridge theorems"
             checks.append(dict(
                 property_id=pid,
